@@ -126,7 +126,9 @@ class PedigreePart:
                 f.write("position COMBINED_rate(cM/Mb) Genetic_Map(cM)\n")
                 f.write("1 0 0\n%d 1.0 0.00001\n%d 100.0 5.0\n%d 1.0 5.00002\n" % (L // 3, L // 2, L))
             kw["genmap"] = gm
-        out, trace = P.run_phase(d, vcf, inputs, reference=ref, tag=o["tag"], ped=ped, max_coverage=o["max_coverage"], **kw)
+        rl = os.path.join(d, "recomb.tsv")
+        out, trace = P.run_phase(d, vcf, inputs, reference=ref, tag=o["tag"], ped=ped, max_coverage=o["max_coverage"],
+                                 recombination_list_filename=rl, **kw)
         dec = P.decode_phasing(out)
         variants = case["variants"][name]
         n = len(variants)
@@ -201,6 +203,28 @@ class PedigreePart:
                                 ctx.violation("pedigree:transmission-mismatch", "%s from %s: between %d and %d the transmitted haplotype %s but transmission bit %d goes %d -> %d (vector %r)" % (
                                     ch, parent, prev[3] + 1, pos + 1, "changes" if which != prev[0] else "stays", bit, prev[1], tb, tv))
                         prev = (which, tb, pc[1], pos)
+        # the recombination list is the public report of the transmission: it must list exactly the changes of the
+        # transmission vector inside components (the tool skips the first pair of a component)
+        from props.c20_aux_lists import expected_recombinations
+        from props.c03_components import components_from_trace
+        want = []
+        for t in trace:
+            if len(t["family"]) < 3 or not t["transmission_vector"]:
+                continue
+            idx = {v["pos"]: vi for vi, v in enumerate(variants)}
+            merge = [p for p in t["accessible_positions"] if any(gts[s][idx[p]] is not None and len(set(gts[s][idx[p]])) == 1 for s in t["family"])]
+            want += expected_recombinations(t, components_from_trace(t, merge))
+        got = []
+        if os.path.exists(rl):
+            with open(rl) as f:
+                for line in f:
+                    if not line.startswith("#"):
+                        p = line.split()
+                        got.append((p[0], p[1], int(p[2]), int(p[3]), int(p[4]), int(p[5]), int(p[6]), int(p[7])))
+        if sorted(got) != sorted(want):
+            ctx.violation("pedigree:recombination-list", "recombination list %r, changes of the transmission vector inside components %r" % (sorted(got)[:4], sorted(want)[:4]))
+        if want:
+            ctx.label("recombination-listed")
         ctx.nontrivial(child_phased >= 2 and (nt_excluded or nt_forced or nt_recomb))
         for lab, flag in (("excluded-variant", nt_excluded), ("read-free-forced-variant", nt_forced), ("recombination-reported", nt_recomb),
                           ("no-reads-at-all", not reads), ("quartet", len(children) == 2), ("recomb-" + o["recomb"], True), ("tag-" + o["tag"], True)):
